@@ -127,9 +127,16 @@ func taskBody(x *caller, id int, ops []Op, skip []bool, results []*OpResult, hp 
 // can be trusted, so the run ends there and the worker restarts.
 var soloUnwound bool
 
+// lastSoloHot: yield points right after synchronisation operations that the
+// most recent reference pass went through (finalizeSchedule places the
+// "hotstall" preemptions among them).
+var lastSoloHot int64
+
 func soloPass(s *Spec, pool []geojson.Object, opBudget int64, taskOrder []int) (results [][]*OpResult, steps int64, hps []harnessPanic) {
 	totalBudget := soloRunBudget(s.Tier)
 	soloUnwound = false
+	hot0 := verifsim.HotTotal()
+	defer func() { lastSoloHot = verifsim.HotTotal() - hot0 }()
 	results = newTaskResults(s.Tasks)
 	var mu sync.Mutex
 	// operations already seen not to terminate normally in this pass: an
